@@ -85,8 +85,10 @@ fn gen_resolve_file(session: &Session, lalrpop_file: &Path, ext: &str) -> io::Re
             .and_then(|p| {
                 // We need to strip the in_dir from the path, if it exists.
                 session.in_dir.as_ref().map(|in_dir| {
-                    // If this file was from the in_directory, then it was necessarily a prefix of the path?
-                    let path_from_in = p.strip_prefix(in_dir).ok().unwrap();
+                    // A file found below the in_directory has it as a prefix of its path. When
+                    // `process_dir` is handed a file instead of a directory, the "walk" yields that
+                    // file itself and its parent is not below it: no relative structure to mirror.
+                    let path_from_in = p.strip_prefix(in_dir).unwrap_or(Path::new(""));
 
                     // Strip the src directory if we can?
                     // Is this only for maintaining the old behavior of starting
